@@ -157,17 +157,22 @@ fn main() {
     let secs: u64 = std::env::var("VERIF_CASE_TIMEOUT").ok().and_then(|v| v.parse().ok()).unwrap_or(60);
     let mut w: Option<Worker> = None;
     let mut pending: Vec<u8> = vec![];
+    // once a case has been seen to spin, the run already has its verdict: later cases get a short deadline (a change that
+    // makes MANY cases spin must not turn one check into hours), and after 200 of them the rest are not run at all
+    let mut spins: u32 = 0;
     for line in stdin.lock().lines() {
         let line = line.unwrap();
         let line = line.trim();
         if line.is_empty() || line.starts_with('#') { continue; }
         let r = if supervised {
             if w.is_none() { out.flush().unwrap(); w = Some(spawn_worker()); pending.clear(); }
-            match ask(w.as_ref().unwrap(), line, &mut pending, secs) {
+            let limit = if spins == 0 { secs } else { std::cmp::min(secs, 3) };
+            if spins >= 200 { "skipped # harness: 200 cases of this run did not answer within their deadline".to_string() } else {
+            match ask(w.as_ref().unwrap(), line, &mut pending, limit) {
                 Some(Some(r)) => r,
                 Some(None) => { kill_worker(w.as_ref().unwrap()); w = None; "crashed".to_string() }
-                None => { kill_worker(w.as_ref().unwrap()); w = None; format!("spin # harness: no answer within {} s", secs) }
-            }
+                None => { kill_worker(w.as_ref().unwrap()); w = None; spins += 1; format!("spin # harness: no answer within {} s", limit) }
+            } }
         } else {
             let toks: Vec<&str> = line.split_whitespace().collect();
             dispatch(toks[0], &toks[1..])
